@@ -473,6 +473,7 @@ func main() {
 	}, r.PanicViolation("sign/verify round trip"))
 	concurrentStreams(r, signers["EC-256"])
 	fromConfig(r, signers["EC-384"])
+	keyChosenPerCall(r, signers["EC-256"], signers["EC-384"])
 	r.RequireAtLeast("blob-round-trips", 72)
 	r.RequireAtLeast("oci-round-trips", 36)
 	r.Finish()
@@ -488,8 +489,67 @@ func (r richRepo) Resolve(ctx context.Context, ref string) (ocispec.Descriptor, 
 		d.URLs = []string{"https://example.invalid/blob"}
 		d.Data = []byte("embedded")
 		d.Platform = &ocispec.Platform{Architecture: "amd64", OS: "linux"}
+		// what is being signed may itself be a signature manifest (countersigning): its descriptor carries annotations
+		// in the Notary namespace - annotations of the artifact like any other
+		if d.Annotations == nil {
+			d.Annotations = map[string]string{}
+		}
+		d.Annotations["io.cncf.notary.x509chain.thumbprint#S256"] = `["00aa"]`
 	}
 	return d, err
+}
+
+// keyChosenPerCall: a plugin-backed signer whose plugin holds two keys of different specs; the configuration given WITH THE
+// CALL selects the key (an alias, a key version). Everything the signer asks the plugin in that call - the key's spec
+// included - is asked with the merged configuration, so the digest follows the key that signs, and the round trip closes.
+func keyChosenPerCall(r *lib.Run, def, alt *lib.Ent) {
+	ctx := context.Background()
+	ts := lib.NewMemTS().Put("ca:x", def.Root().Cert, alt.Root().Cert)
+	sv := trustpolicy.SignatureVerification{VerificationLevel: "strict"}
+	v, err := verifier.NewVerifierWithOptions(ts, verifier.VerifierOptions{OCITrustPolicy: lib.OCIPolicy(sv, []string{"ca:x"}, []string{"*"}), BlobTrustPolicy: lib.BlobPolicy(sv, []string{"ca:x"}, []string{"*"}),
+		RevocationCodeSigningValidator: lib.OKRev{}, RevocationTimestampingValidator: lib.OKRev{}})
+	if err != nil {
+		panic(err)
+	}
+	content := []byte("c07 blob signed with the key the call selects")
+	desc := lib.Desc(ocispec.MediaTypeImageManifest, []byte("c07 artifact signed with the key the call selects"))
+	for _, mode := range []string{"raw", "envelope"} {
+		for _, format := range lib.Formats {
+			for _, which := range []string{"default", "alt"} {
+				p := &lib.TwoKeyPlugin{Default: &lib.HonestSignPlugin{Mode: mode, Ent: def, KeySpecName: "EC-256"}, Alt: &lib.HonestSignPlugin{Mode: mode, Ent: alt, KeySpecName: "EC-384"}}
+				ps, err := signer.NewPluginSigner(p, "key-1", map[string]string{"region": "eu-1"})
+				if err != nil {
+					panic(err)
+				}
+				var callCfg map[string]string
+				wantAlg := digest.SHA256
+				if which == "alt" {
+					callCfg, wantAlg = map[string]string{"key": "alt"}, digest.SHA384
+				}
+				id := fmt.Sprintf("key-chosen-per-call|%s|%s|%s", mode, format, which)
+				sig := map[string]string{"kind": "verify-failed", "signer": "plugin-" + mode, "format": format, "key": which}
+				sopts := notation.SignerSignOptions{SignatureMediaType: format, PluginConfig: callCfg}
+				r.Eval(id + "|blob")
+				sigBytes, _, err := notation.SignBlob(ctx, ps, bytes.NewReader(content), notation.SignBlobOptions{SignerSignOptions: sopts, ContentMediaType: "text/plain"})
+				if err != nil {
+					r.Violation(map[string]string{"kind": "sign-failed", "signer": "plugin-" + mode, "format": format, "key": which}, fmt.Sprintf("%s: SignBlob failed: %v", id, err), nil)
+				} else if got, out, err := notation.VerifyBlob(ctx, v, bytes.NewReader(content), sigBytes, notation.VerifyBlobOptions{BlobVerifierVerifyOptions: notation.BlobVerifierVerifyOptions{SignatureMediaType: format}, ContentMediaType: "text/plain"}); err != nil || out == nil || got.Digest != wantAlg.FromBytes(content) {
+					r.Violation(sig, fmt.Sprintf("%s: the blob signature made with the key selected by the call's plugin configuration does not verify (or names digest %s, expected %s): %v", id, got.Digest, wantAlg.FromBytes(content), err), nil)
+				} else {
+					r.Event("round-trips-with-a-key-chosen-by-the-call")
+				}
+				r.Eval(id + "|oci")
+				sigBytes, _, err = ps.Sign(ctx, desc, sopts)
+				if err != nil {
+					r.Violation(map[string]string{"kind": "sign-failed", "signer": "plugin-" + mode, "format": format, "key": which}, fmt.Sprintf("%s: Sign failed: %v", id, err), nil)
+				} else if out, err := v.Verify(ctx, desc, sigBytes, notation.VerifierVerifyOptions{ArtifactReference: "registry.example/repo@" + desc.Digest.String(), SignatureMediaType: format}); err != nil || out == nil {
+					r.Violation(sig, fmt.Sprintf("%s: the signature made with the key selected by the call's plugin configuration does not verify: %v", id, err), nil)
+				} else {
+					r.Event("round-trips-with-a-key-chosen-by-the-call")
+				}
+			}
+		}
+	}
 }
 
 // fromConfig: the verifiers a CLI builds from the user's directories (three separate directories, as on a real
